@@ -215,24 +215,31 @@ func (m *monitor) step(op string, resp sessrig.Resp, entries []sessrig.Entry, he
 		for _, l := range m.epoch {
 			need[l] = true
 		}
-		for l := range need {
+		slices := make([]string, 0, len(m.epoch))
+		for s := range m.epoch {
+			slices = append(slices, s)
+		}
+		sort.Strings(slices)
+		for _, s := range slices {
+			l := m.epoch[s]
 			if !ended[l] {
-				return mk("end_call_missing", "%s did not reach lease %d of the transaction", ending, l)
+				return mk("end_call_missing", "%s did not reach the transaction's connection for %s", ending, s)
 			}
 			if !m.ks && !released[l] {
-				return mk("not_released_at_end", "lease %d still held after %s", l, ending)
+				return mk("not_released_at_end", "the transaction's connection for %s is still held after %s", s, ending)
 			}
 		}
+		extra := 0
 		for l := range ended {
 			if need[l] {
 				continue
 			}
-			if !m.ks {
-				return mk("end_call_extra", "%s sent to lease %d which the transaction never used", ending, l)
+			if !m.ks || !heldByA[l] {
+				extra++
 			}
-			if !heldByA[l] {
-				return mk("end_call_extra", "%s sent to lease %d which this session does not hold", ending, l)
-			}
+		}
+		if extra > 0 {
+			return mk("end_call_extra", "%s sent to %d connection(s) that are not part of the transaction", ending, extra)
 		}
 	}
 	// advance the client's view
